@@ -25,8 +25,9 @@ func ruleInterceptorShorthands(c *Ctx, rule string) {
 			continue
 		}
 		got := ""
+		fam := ctorFamily(c.P.Func("mux.WithInterceptor"))
 		an.AllInstrs(f, func(in ssa.Instruction) {
-			if call := an.CallOf(in); call != nil && an.CalleeName(call) == "mux.WithInterceptor" && len(call.Args) > 0 {
+			if call := an.CallOf(in); call != nil && an.StaticCallee(call) != nil && fam[an.StaticCallee(call)] && len(call.Args) > 0 {
 				v := call.Args[0]
 				if ct, ok := v.(*ssa.ChangeType); ok {
 					v = ct.X
